@@ -223,6 +223,10 @@ def run(ctx):
     from ..etf import check_field_ranges
     check_field_ranges(ctx, 'C01.2-field-ranges')
 
+    ctx.rule('C01.3-canonical-forms', 'encoding the decoded term again reproduces the same bytes: where the format has a short and a long form (atoms, tuples) the encoder uses the short form for everything that fits it', floor=2)
+    from ..etf import check_canonical_forms
+    check_canonical_forms(ctx, 'C01.3-canonical-forms')
+
     # ---------------- the order that keys decoded maps ------------------------------------------------------------------
     ctx.rule('C01.6-map-key-order', 'decoding collects map entries into a BTreeMap keyed by the term type (both decoders): "same key/value pairs" after a round trip needs an order under which two different keys '
              'never compare Equal - the comparator rules of C11/C12 re-run here', floor=60)
